@@ -3,6 +3,20 @@
 package all
 
 import (
-	_ "verif/harness/internal/props/c05"
+	"verif/harness/internal/ev"
+	"verif/harness/internal/props/c05"
+	c05mysql "verif/harness/internal/props/c05/mysql"
 	_ "verif/harness/internal/props/c05/proxy"
 )
+
+// the wire layers of C05: PostgreSQL (plugged in by props/c05/proxy's init, which runs before this one), then MySQL
+// (Acra's SQL dialect is a process global, so the two run one after the other)
+func init() {
+	pg := c05.ProxyLayer
+	c05.ProxyLayer = func(r *ev.Run) {
+		if pg != nil {
+			pg(r)
+		}
+		c05mysql.Layer(r)
+	}
+}
